@@ -8,15 +8,17 @@ so that a change of one solver breaks only its own theorems) and the documented 
                  formula, with points read as elements of `EuclideanSpace ℝ (Fin n)`.
 
 Everything the property files (C13, C09, C07, C08, C20 shares) prove about the code goes through
-these statements.  They are proved by unfolding the generated definitions and rewriting
-`Real.sqrt (… * … + …)` into norms / distances / inner products, so they break — loudly — when
-the traced formula changes.
+these statements.  They are proved by reducing the traced tree with the acceptance conditions (whatever
+their order), rewriting the documented norms / distances / inner products into coordinates and ring
+normalisation inside and outside the square roots (EPV/Lemmas/Bridge/DetonTactics.lean), so they do not
+depend on how the Python writes the formula, and break — loudly — when the traced formula changes.
 -/
 import EPV.Gen.K2d2
 import EPV.Gen.K2d3
 import EPV.Spec.Burn
 import EPV.Lemmas.Burn
 import EPV.Tactics
+import EPV.Lemmas.Bridge.DetonTactics
 
 set_option linter.all false
 
@@ -57,56 +59,53 @@ noncomputable def K2d2.spec (p : K2d2.P) (q : E2) : ℝ :=
 noncomputable def K2d3.spec (p : K2d3.P) (q : E3) : ℝ :=
   k2 p.R p.D1 p.D2 p.td1 p.td2 p.td3 p.td4 p.td5 (axis3 p.a1) (axis3 p.a2) (axis3 p.a4) (axis3 p.a5) q
 
+/-- `K2Adm` as a plain conjunction (so that the order of the constructor's checks does not matter) -/
+theorem K2Adm_iff {E : Type*} [NormedAddCommGroup E] [InnerProductSpace ℝ E]
+    {R D1 D2 td1 td2 td3 td4 td5 : ℝ} {d1 d2 d4 d5 : E} :
+    K2Adm R D1 D2 td1 td2 td3 td4 td5 d1 d2 d4 d5 ↔
+      (0 < R ∧ 0 < D2 ∧ D2 ≤ D1 ∧ R < ‖d1‖ ∧ R < ‖d2‖ ∧ R < ‖d4‖ ∧ R < ‖d5‖ ∧
+        td3 + R * (1 / D1 + 1 / D2) - ‖d1‖ / D2 ≤ td1 ∧ td3 + R * (1 / D1 + 1 / D2) - ‖d2‖ / D2 ≤ td2 ∧
+        td3 + R * (1 / D1 + 1 / D2) - ‖d4‖ / D2 ≤ td4 ∧ td3 + R * (1 / D1 + 1 / D2) - ‖d5‖ / D2 ≤ td5) :=
+  ⟨fun h => ⟨h.hR, h.hD2, h.hD, h.out1, h.out2, h.out4, h.out5, h.time1, h.time2, h.time4, h.time5⟩,
+   fun ⟨a, b, c, d, e, f, g, h, i, j, k⟩ => ⟨a, b, c, d, e, f, g, h, i, j, k⟩⟩
+
 /-- the request is accepted exactly under the documented ordering conditions (with D₁ ≥ D₂ as coded) -/
 theorem k2d2_outcome (p : K2d2.P) (x y : ℝ) : K2d2.outcome p x y = .ok ↔ K2d2.Adm p := by
-  simp only [epv_tree, ite_raise_eq_ok]
+  simp only [epv_tree, Bridge.Deton.ite_raise_ok, Bridge.Deton.ite_else_raise_ok, ite_self, Bridge.Deton.ok_eq_ok, and_true]
   simp only [epv_cond, not_le, not_lt]
   unfold K2d2.Adm
-  constructor
-  · rintro ⟨h0, h1, h2, h3, o1, o2, o4, o5, t1, t2, t4, t5, -⟩
-    exact ⟨h0, h2, h3, by rwa [norm_axis2], by rwa [norm_axis2], by rwa [norm_axis2], by rwa [norm_axis2],
-      by rwa [norm_axis2], by rwa [norm_axis2], by rwa [norm_axis2], by rwa [norm_axis2]⟩
-  · rintro ⟨h0, h2, h3, o1, o2, o4, o5, t1, t2, t4, t5⟩
-    rw [norm_axis2] at o1 o2 o4 o5 t1 t2 t4 t5
-    exact ⟨h0, h2.trans_le h3, h2, h3, o1, o2, o4, o5, t1, t2, t4, t5, trivial⟩
+  rw [K2Adm_iff]
+  simp only [norm_axis2]
+  epv_deton_conj_iff
 
 theorem k2d3_outcome (p : K2d3.P) (x y z : ℝ) : K2d3.outcome p x y z = .ok ↔ K2d3.Adm p := by
-  simp only [epv_tree, ite_raise_eq_ok]
+  simp only [epv_tree, Bridge.Deton.ite_raise_ok, Bridge.Deton.ite_else_raise_ok, ite_self, Bridge.Deton.ok_eq_ok, and_true]
   simp only [epv_cond, not_le, not_lt]
   unfold K2d3.Adm
-  constructor
-  · rintro ⟨h0, h1, h2, h3, o1, o2, o4, o5, t1, t2, t4, t5, -⟩
-    exact ⟨h0, h2, h3, by rwa [norm_axis3], by rwa [norm_axis3], by rwa [norm_axis3], by rwa [norm_axis3],
-      by rwa [norm_axis3], by rwa [norm_axis3], by rwa [norm_axis3], by rwa [norm_axis3]⟩
-  · rintro ⟨h0, h2, h3, o1, o2, o4, o5, t1, t2, t4, t5⟩
-    rw [norm_axis3] at o1 o2 o4 o5 t1 t2 t4 t5
-    exact ⟨h0, h2.trans_le h3, h2, h3, o1, o2, o4, o5, t1, t2, t4, t5, trivial⟩
+  rw [K2Adm_iff]
+  simp only [norm_axis3]
+  epv_deton_conj_iff
 
 /-- under the constructor's checks the traced burn time is the documented solution -/
 theorem k2d2_eq_spec (p : K2d2.P) (q : E2) (h : K2d2.outcome p (q 0) (q 1) = .ok) :
     K2d2.burntime p (q 0) (q 1) = K2d2.spec p q := by
-  simp only [epv_tree, ite_raise_eq_ok] at h
-  obtain ⟨h0, h1, h2, h3, h4, h5, h6, h7, h8, h9, h10, h11, -⟩ := h
-  simp only [epv_tree, if_neg h0, if_neg h1, if_neg h2, if_neg h3, if_neg h4, if_neg h5, if_neg h6, if_neg h7,
-    if_neg h8, if_neg h9, if_neg h10, if_neg h11, epv_leaf]
+  epv_deton_ok_reduce h
+  simp only [epv_leaf]
   unfold K2d2.spec k2 cone
   rw [← sqrt_norm2 q, ← sqrt_dist2 q (axis2 p.a1), ← sqrt_dist2 q (axis2 p.a2), ← sqrt_dist2 q (axis2 p.a4),
     ← sqrt_dist2 q (axis2 p.a5)]
-  simp only [axis2, PiLp.toLp_apply, Matrix.cons_val_zero, Matrix.cons_val_one, sub_zero]
-  first | done | rfl | ring_nf
+  simp only [axis2_0, axis2_1]
+  epv_deton_nf_eq
 
 theorem k2d3_eq_spec (p : K2d3.P) (q : E3) (h : K2d3.outcome p (q 0) (q 1) (q 2) = .ok) :
     K2d3.burntime p (q 0) (q 1) (q 2) = K2d3.spec p q := by
-  simp only [epv_tree, ite_raise_eq_ok] at h
-  obtain ⟨h0, h1, h2, h3, h4, h5, h6, h7, h8, h9, h10, h11, -⟩ := h
-  simp only [epv_tree, if_neg h0, if_neg h1, if_neg h2, if_neg h3, if_neg h4, if_neg h5, if_neg h6, if_neg h7,
-    if_neg h8, if_neg h9, if_neg h10, if_neg h11, epv_leaf]
+  epv_deton_ok_reduce h
+  simp only [epv_leaf]
   unfold K2d3.spec k2 cone
   rw [← sqrt_norm3 q, ← sqrt_dist3 q (axis3 p.a1), ← sqrt_dist3 q (axis3 p.a2), ← sqrt_dist3 q (axis3 p.a4),
     ← sqrt_dist3 q (axis3 p.a5)]
-  simp only [axis3, PiLp.toLp_apply, Matrix.cons_val_zero, Matrix.cons_val_one, Matrix.cons_val_two,
-    Matrix.cons_val, sub_zero]
-  first | done | rfl | ring_nf
+  simp only [axis3_0, axis3_1, axis3_2]
+  epv_deton_nf_eq
 
 
 theorem k2d2_eq_spec' (p : K2d2.P) (h : K2d2.Adm p) (q : E2) : K2d2.burntime p (q 0) (q 1) = K2d2.spec p q :=
